@@ -34,7 +34,7 @@ def run(ctx):
                          "-pout", ctx.path("priwake.ndjson"), "-stress", ctx.path("stress.ndjson"),
                          "-pstress", ctx.path("pstress.ndjson"), "-seed", ctx.seed,
                          "-rand", ctx.q(70, 1000), "-prand", ctx.q(50, 600), "-nstress", ctx.q(4, 100),
-                         "-race", ctx.q(600, 2000), "-rounds", "enter,ctl,enter,ctl,prod,enter,ctl,take", "-prace", ctx.q(100, 1500), "-npstress", ctx.q(60, 600)],
+                         "-race", ctx.q(600, 2000), "-rounds", "enter,ctl,prod,enter,ctl,prod,take", "-prace", ctx.q(100, 1500), "-npstress", ctx.q(60, 600)],
                 traces=[ctx.path("wake.ndjson"), ctx.path("priwake.ndjson"), ctx.path("stress.ndjson"),
                         ctx.path("pstress.ndjson")])
     wake = _load(ctx, "wake.ndjson")
@@ -83,6 +83,12 @@ def run(ctx):
         "capacities include -1 and MaxInt (logged clamped) for the list queues and 0, -1, MaxInt for priq; calls "
         "whose return depends on the exact length (AddAnyway, WaitClear with a live context) are only issued "
         "while the harness's count model is exact (before the first burst / race of a trace)",
+        "blocked producers are first-class: AddAnyway runs on producer goroutines (op paddw), may stay inside "
+        "the call on a full lane (asleep between two tries on the unchanged tree: counted as quiet, and while "
+        "any producer is inside a call quiescence is re-awaited twice after several poll periods), must get on "
+        "when there is room and be refused once closed (NoStrandedProducer, CloseSem); plans, random "
+        "schedules and 'prod' race rounds (k sleepers x Pops / close / another producer) on capacities 1..2",
+        "item values (nil, typed nil, zero values, uncomparable values, the same pointer twice) as in C12",
         "what is issued is decided by the harness's own count model of the property (qa.Model), never by "
         "the implementation's replies",
         "priq mid-call states are reached through verifGate (build tag verif) before tyrSignal in Push/Pop; "
